@@ -224,8 +224,8 @@ _wq = ["c02w_storage_header_id4", "c02w_storage_header_id1", "c02w_standard_head
 _wt = ["c02w_storage_header_id0", "c02w_storage_header_id3", "c02w_standard_header_c1", "c02w_standard_header_c3", "c02w_standard_header_c4",
        "c02w_standard_header_c6", "c02w_extended_header_id0", "c02w_extended_header_id3"]
 _w = _wq + ["c02w_payload_nonverbose_control", "c02w_payload_nettrace_le", "c02w_payload_nettrace_be"]
-_d = ["c02d_standard_header_full_length", "c02d_extended_header_full_length"]
-_dt = ["c02d_standard_header_all_bytes", "c02d_extended_header_all_bytes", "c02d_storage_header_fields"]
+_d = []
+_dt = ["c02d_standard_header_full_length", "c02d_extended_header_full_length", "c02d_standard_header_all_bytes", "c02d_extended_header_all_bytes", "c02d_storage_header_fields"]
 PROPS["C02"] = {
     "level": "model_checking",
     "level_text": "Encoding: every writer unit (storage / standard / extended header, each argument layout in both byte orders, payload kinds) is compared byte for byte with an independently written reference encoder for all field values. Decoding: header parsers on fully symbolic bytes (all 256 HTYP, all 256 MSIN, arbitrary id bytes, symbolic available length) against the reference decoder; message / filtered / incomplete / reject verdict and consumed length per shape and declared-length class (C04's harnesses carry the reference verdict); all 2^32 type-info words in C14.",
@@ -236,7 +236,12 @@ PROPS["C02"] = {
     "assumptions": COMMON_ASSUME + ['std::fmt::format stubbed (messages not compared)', 'core::str::from_utf8 replaced by a byte-wise model checked against std (c19_utf8_model_vs_std)', 'forward_to_next_storage_header replaced by its specification (first occurrence) in whole-message storage-mode harnesses; the real function is checked against that specification in C06', 'ids, names, units and string contents are literals in whole-message harnesses (whether a byte is NUL is control for the parser); arbitrary contents are decided in C19 / c02d'],
     "trusted_base": ['reference encoder / decoder in kani/src (refcodec.rs, shapes.rs, c02d.rs)'],
     "harnesses": [H("c02w::" + n, "quick", 900) for n in _w] + [H("c02d::" + n, "quick", 900, allow_unsat_covers=["empty input incomplete", "15 bytes incomplete", "len == 9"]) for n in _d]
-                 + [H("c02d::" + n, "thorough", 1800) for n in _dt]
+                 + [H("c02d::" + n, "thorough", 2400, allow_unsat_covers=(["empty input incomplete", "15 bytes incomplete", "len == 9"] if "full_length" in n else [])) for n in _dt]
+                 # decoder side in the quick tier: header fields for all HTYP / MSIN / id contents (shared with C14 / C19) and
+                 # message / incomplete / reject verdicts incl. consumed length for corrupted declared lengths (shared with C04)
+                 + [H(n, "quick", 900) for n in ["c14::c14_htyp_via_standard_header", "c14::c14_msin_via_extended_header_parse", "c19::c19_ids_extended_header",
+                    "c19::c19_ids_standard_header_ecu", "gen_c04::c04_verbose_u16_be_nofilter_p0", "gen_c04::c04_verbose_u16_be_nofilter_m1",
+                    "gen_c04::c04_nonverbose_min_nofilter_p4", "gen_c04::c04_nonverbose_min_nofilter_m1", "gen_c04::c04_control_storage_nofilter_p1"]]
                  + [H("c02w::" + n, "thorough", 900) for n in _wt]
                  + [H("c02w::c02w_message_whole_nonverbose_min", "thorough", 1800), H("c02w::c02w_payload_verbose_concat", "thorough", 3600, mem_gb=30)]
                  + [H("c14::c14_typeinfo_all_words", "quick", 300, what="accept/reject and decoded description for all 2^32 type-info words (shared with C14)")]
@@ -280,9 +285,9 @@ PROPS["C07"] = {
     "outside": 'longer streams / schedules; storage-header mode of the reader (same code path with a 16-byte larger header read)',
     "assumptions": COMMON_ASSUME + ['std::fmt::format stubbed (messages not compared)', 'core::str::from_utf8 replaced by a byte-wise model checked against std (c19_utf8_model_vs_std)'],
     "trusted_base": ['std::io::BufReader, Read::read_exact'],
-    "harnesses": [H("c07::" + n, "quick", 1500) for n in ["c07_any_stream_no_storage_6", "c07_first_of_two_messages_any_schedule", "c07_truncated_tail_any_schedule",
+    "harnesses": [H("c07::" + n, "quick", 1500) for n in ["c07_any_stream_no_storage_6", "c07_first_of_two_messages_any_schedule",
                   "c07_read_message_equals_slice_parse"]]
-                 + [H("c07::c07_two_messages_any_schedule", "thorough", 5400, mem_gb=40), H("c07::c07_default_capacity_any_declared_length", "thorough", 5400, mem_gb=40)],
+                 + [H("c07::c07_truncated_tail_any_schedule", "thorough", 3600, mem_gb=30), H("c07::c07_two_messages_any_schedule", "thorough", 5400, mem_gb=40), H("c07::c07_default_capacity_any_declared_length", "thorough", 5400, mem_gb=40)],
 }
 
 PROPS["C15"] = {
@@ -340,7 +345,7 @@ PROPS["C03"] = {
                  + [H(n, "quick", 1200, mem_checks=True, what="re-run with memory-safety checks") for n in [
                     "c19::c19_zstring_model_utf8", "c06::c06_search_real_memmem_8", "c13::c13_u16_raw", "c13::c13_raw", "c13::c13_bool", "c13::c13_string_len2_be",
                     "gen_c04::c04_verbose_u16_be_nofilter_m1", "gen_c04::c04_verbose_u16_be_nofilter_p1", "gen_c04::c04_nonverbose_min_nofilter_m2",
-                    "gen_c04::c04_control_storage_nofilter_p4", "gen_c05::c05_nonverbose_min_4_7"]]
+                    "gen_c04::c04_control_storage_nofilter_p4", "gen_c05::c05_nonverbose_min_5_6"]]
                  + [H(n, "thorough", 2400, mem_checks=True, what="re-run with memory-safety checks") for n in [
                     "c02d::c02d_standard_header_all_bytes", "c02d::c02d_extended_header_all_bytes", "c02d::c02d_storage_header_fields",
                     "c19::c19_zstring_std_utf8", "c13::c13_string_u32", "c13::c13_u128"]],
